@@ -96,7 +96,13 @@ func LoadShifted(dir string, tests bool, targetFile string, boundaryOffset int, 
 					fset.AddFile("pad", -1, need-1)
 				}
 			}
-			return parser.ParseFile(fset, filename, src, parser.AllErrors|parser.ParseComments)
+			f, err := parser.ParseFile(fset, filename, src, parser.AllErrors|parser.ParseComments)
+			if filename == targetFile {
+				// whatever is parsed later starts at least a page further on: the page behind the boundary holds
+				// nothing but the rest of this file
+				fset.AddFile("pad-after", -1, 1<<shiftBits)
+			}
+			return f, err
 		},
 	}
 	if len(patterns) == 0 {
